@@ -287,3 +287,33 @@ def n_dims_for(n_out, fix_sigma, em_names):
     if not fix_sigma:
         n += sum(D.ERROR_MODELS[e][0] for e in em_names)
     return n
+
+
+def flag_combinations_agree(obj):
+    """the optional flags of get_parameter_names commute: the top-level part
+    (exclude_bottom_level) of the names with / without IDs is what the full
+    lists hold at the positions whose ID is None; returns a list of
+    problems"""
+    ids = obj.get_id()
+    plain = list(obj.get_parameter_names())
+    with_ids = list(obj.get_parameter_names(include_ids=True))
+    top = list(obj.get_parameter_names(exclude_bottom_level=True))
+    top_ids = list(obj.get_parameter_names(
+        exclude_bottom_level=True, include_ids=True))
+    prob = []
+    if len(ids) != len(plain) or len(plain) != len(with_ids):
+        return ['ids %d, names %d, names with ids %d' % (
+            len(ids), len(plain), len(with_ids))]
+    want_top = [n for n, i in zip(plain, ids) if i is None]
+    want_top_ids = [n for n, i in zip(with_ids, ids) if i is None]
+    if top != want_top:
+        prob.append('exclude_bottom_level: %r, population-level entries of '
+                    'the full list: %r' % (top[:6], want_top[:6]))
+    if top_ids != want_top_ids:
+        prob.append('exclude_bottom_level + include_ids: %r, expected %r' % (
+            top_ids[:6], want_top_ids[:6]))
+    if len(top) != obj.n_parameters(exclude_bottom_level=True):
+        prob.append('%d top-level names, n_parameters(exclude_bottom_level)'
+                    ' = %d' % (len(top), obj.n_parameters(
+                        exclude_bottom_level=True)))
+    return prob
